@@ -6,6 +6,7 @@ import asyncio
 import copy
 import gc
 import multiprocessing
+import os
 import signal
 from concurrent.futures import ProcessPoolExecutor, ThreadPoolExecutor
 
@@ -98,20 +99,29 @@ def _alarm(signum, frame):
 
 
 _HANGS = [0]
+_WASTED = [0.0]  # seconds this process spent in watchdog periods that expired
 
 
-def with_watchdog(fn, seconds=20):
+def with_watchdog(fn, seconds=8):
     """Bounded wait for the 'returns instead of hanging' clause.  A first timeout is retried once with a three
-    times longer budget (a loaded machine must not look like a hang); only a repeated timeout propagates."""
-    if _HANGS[0] >= 2:
-        seconds = min(seconds, 5)  # this process has seen real hangs: do not spend two full periods on every further one
+    times longer budget (a loaded machine must not look like a hang) unless this process itself burnt the whole
+    period on the CPU -- a busy-waiting hang, which is reported at once (such a loop can also grow without bound:
+    re-raising one stored exception object extends its traceback on every turn).  Only a repeated (or spinning)
+    timeout propagates."""
+    import time as _time
+
+    if _HANGS[0] >= 1:
+        seconds = min(seconds, 4)  # this process has seen real hangs: do not spend full periods on every further one
     for attempt, budget in enumerate((seconds, 3 * seconds)):
         old = signal.signal(signal.SIGALRM, _alarm)
+        cpu0 = _time.process_time()
         signal.setitimer(signal.ITIMER_REAL, budget)
         try:
             return fn()
         except _Timeout:
-            if attempt == 1:
+            _WASTED[0] += budget
+            spinning = (_time.process_time() - cpu0) >= 0.7 * budget
+            if attempt == 1 or spinning:
                 _HANGS[0] += 1
                 raise
         finally:
@@ -276,6 +286,11 @@ def body_map(data) -> Outcome:
     from pipefunc.map import load_outputs
 
     out = Outcome()
+    if (_HANGS[0] >= 2 or _WASTED[0] >= 45) and "watchdog" not in data:
+        # two hangs are already reported by this process; every further one costs a watchdog period (and, for a
+        # busy-waiting hang, a core), so the rest of this shard's map cases is skipped -- never a verdict
+        out.labels.append("skipped-after-repeated-hangs")
+        return out
     prog, cfg, pick, exc_key = data["prog"], data["cfg"], data["pick"], data["exc"]
     mode, entry = cfg["mode"], cfg["entry"]
     if exc_key == "stopiter" and entry == "async" and not data.get("allow_stopiter_async"):
@@ -378,7 +393,7 @@ def body_map(data) -> Outcome:
 
         raised = None
         try:
-            r = with_watchdog(go, data.get("watchdog", 20))
+            r = with_watchdog(go, data.get("watchdog", 8))
         except _Timeout:
             out.fail(f"{tag}-hang", f"failing call {fbase}")
             return out
@@ -510,11 +525,73 @@ class _net_fault:
         return False
 
 
+def _in_killable_child(body, data, budget: float) -> Outcome:
+    """Run one case in a forked child of its own process group and kill the whole group when it does not answer in
+    time.  Used for the exception types that the waiting machinery itself reacts to (TimeoutError): a wrong reaction
+    can be a busy-waiting loop that the in-process watchdog (a Python-level signal handler) does not reliably break."""
+    import json as _json
+    import select
+    import time as _time
+
+    r, w = os.pipe()
+    pid = os.fork()
+    if pid == 0:
+        try:
+            os.close(r)
+            os.setpgid(0, 0)
+            o = body(data)
+            payload = {"nontrivial": o.nontrivial, "labels": o.labels, "units": o.units,
+                       "failures": [[f.bucket, f.detail, f.info if isinstance(f.info, (dict, list, str, int, type(None))) else None] for f in o.failures]}  # fmt: skip
+            os.write(w, _json.dumps(payload, default=str).encode())
+        finally:
+            os._exit(0)
+    os.close(w)
+    out = Outcome()
+    buf = b""
+    t0 = _time.time()
+    while _time.time() - t0 < budget:
+        ready, _, _ = select.select([r], [], [], 0.5)
+        if ready:
+            chunk = os.read(r, 1 << 20)
+            if not chunk:
+                break
+            buf += chunk
+    try:
+        os.killpg(pid, 9)
+    except OSError:
+        pass
+    try:
+        os.kill(pid, 9)
+    except OSError:
+        pass
+    os.waitpid(pid, 0)
+    os.close(r)
+    if buf:
+        try:
+            d = _json.loads(buf.decode())
+            out.nontrivial, out.labels, out.units = d["nontrivial"], d["labels"], d["units"]
+            for b, det, info in d["failures"]:
+                out.fail(b, det, info)
+            return out
+        except ValueError:
+            pass
+    cfg = data.get("cfg", {})
+    tag = cfg.get("mode", "?") if cfg.get("entry", "map") == "map" else f"{cfg.get('mode', '?')}-async"
+    out.labels = [f"mode:{tag}", f"exc:{data.get('exc')}"]
+    out.fail(f"{tag}-hang", f"the case did not finish within {budget:.0f} s (killed)")
+    return out
+
+
 def _with_env(body):
     def wrapped(data) -> Outcome:
         kind = NET_FAULTS[(data["pick"] // 977) % len(NET_FAULTS)]
-        with _net_fault(kind):
-            out = body(data)
+        if body is body_map and data.get("exc") == "timeout" and data.get("cfg", {}).get("mode") != "seq":
+            with _net_fault(kind):
+                out = _in_killable_child(body, data, 45.0)
+            out.labels.append("run-in-a-killable-child")
+        else:
+            with _net_fault(kind):
+                out = body(data)
         out.labels.append(f"net-fault:{kind}")
         if kind != "none":
             for f in out.failures:
